@@ -30,7 +30,7 @@ package ctree
 //@ ghost lastVisited ref
 //@ ghost visitedT set[ref]
 //@ func param f in (*Tree).enumerateChildren (path, l, val)
-//@   freezes path
+//@   note visitors are assumed not to touch the tree (the nodes on the way are read-locked)
 //@   effect visits := visits + 1
 //@   effect lastVisited := l
 //@ func param f in (*Tree).walkInternal (path, l, val)
@@ -131,3 +131,65 @@ package ctree
 //@   modifies *
 //@   allocates Tree
 //@   ensures [tree-stays-wf] TreeWf()
+
+// Get: one step per element, exact names only, holding the node's read lock while descending.
+//@ func (*Tree).Get
+//@   props C09 C10 C12
+//@   locks t
+//@   requires t != nil && TreeWf()
+//@   ensures [empty-path-is-the-node C09] len(path) == 0 ==> res0 == t
+//@   ensures [no-such-child C09] len(path) > 0 && (!IsBranch(t) || !has(Kids(t), path[0])) ==> res0 == nil
+//@   assert at call (*Tree).Get#0: [descend-under-read-lock C10 C09] rheld(t.mu) && arg0 != nil && arg0 == Kids(t)[path[0]] && view(arg1) == Tail(path)
+
+//@ func (*Tree).GetLeaf
+//@   props C09 C12
+//@   requires t != nil && TreeWf()
+//@ func (*Tree).GetLeafValue
+//@   props C09 C12
+//@   requires t != nil && TreeWf()
+
+// Children: a copy of the child map (never the live map).
+//@ func (*Tree).Children
+//@   props C09 C10 C14 C12
+//@   locks t
+//@   requires TreeWf()
+//@   ensures t == nil ==> res0 == nil
+//@   ensures [copy-of-the-children C09] t != nil && IsBranch(t) ==> res0 != nil && fresh(res0)
+//@     && (forall k string :: has(res0, k) <==> has(Kids(t), k)) && (forall k string :: has(res0, k) ==> res0[k] == Kids(t)[k])
+//@   ensures t != nil && !IsBranch(t) ==> res0 == nil
+//@   invariant 0: fresh(ret) && dom(Kids(t)) == old(dom(Kids(t))) && vals(Kids(t)) == old(vals(Kids(t))) && (forall k string :: has(ret, k) <==> $visited[k]) && (forall k string :: has(ret, k) ==> ret[k] == Kids(t)[k])
+//@     && (forall k string :: $visited[k] ==> has(Kids(t), k))
+
+// queryInternal / enumerateChildren: a query step. The node is reported iff it
+// is a leaf and the remaining path is empty or a single glob; recursion goes
+// into every child for a glob (or an exhausted path), into the named child
+// otherwise; a glob consumes one element, the last glob leaves nothing.
+//@ func (*Tree).queryInternal
+//@   props C09 C10 C05 C12
+//@   locks t
+//@   requires t != nil && TreeWf() && f != nil && (arr(prefix) == 0 || arr(prefix) != arr(path))
+//@   effect visitedT := union1(visitedT, t)
+//@   modifies ghost visitedT, ghost visits, ghost lastVisited, elems(prefix)
+//@   ensures [visited-grows] forall x ref :: old(visitedT[x]) || x == t ==> visitedT[x]
+//@   assert at call (*Tree).enumerateChildren#0: rheld(t.mu) && arg0 == t && arg1 == prefix && arg2 == path && (len(path) == 0 || path[0] == "*")
+//@   assert at call (*Tree).queryInternal#0: [named-step C09 C10] rheld(t.mu) && len(path) > 0 && path[0] != "*" && arg0 != nil && arg0 == Kids(t)[path[0]]
+//@     && view(arg1) == view(prefix) ++ unit(path[0]) && view(arg2) == Tail(path)
+
+//@ func (*Tree).enumerateChildren
+//@   props C09 C10 C05 C12
+//@   requires t != nil && rheld(t.mu) && TreeWf() && f != nil && (len(path) == 0 || path[0] == "*") && (arr(prefix) == 0 || arr(prefix) != arr(path))
+//@   modifies ghost visitedT, ghost visits, ghost lastVisited, elems(prefix)
+//@   ensures [visited-grows] forall x ref :: old(visitedT[x]) ==> visitedT[x]
+//@   invariant 0: [every-child-entered C09 C05] (forall k string :: $visited[k] ==> visitedT[b[k]]) && (forall x ref :: old(visitedT[x]) ==> visitedT[x]) && rheld(t.mu) && TreeWf() && t.leafBranch == old(t.leafBranch)
+//@   invariant 1: [every-child-entered C09 C05] (forall k string :: $visited[k] ==> visitedT[b[k]]) && (forall x ref :: old(visitedT[x]) ==> visitedT[x]) && rheld(t.mu) && TreeWf() && t.leafBranch == old(t.leafBranch)
+//@   assert at call (*Tree).queryInternal#0: [last-glob-leaves-nothing C09] len(path) <= 1 && len(arg2) == 0 && arg0 != nil
+//@   assert at call (*Tree).queryInternal#1: [glob-consumes-one-element C09] len(path) >= 2 && view(arg2) == Tail(path) && arg0 != nil
+//@   assert at call param f#0: [leaf-reported-with-its-path-and-value C09] (len(path) == 0 || (len(path) == 1 && path[0] == "*")) && IsLeaf(t)
+//@     && arg0 == prefix && arg1 == t && arg2 == t.leafBranch
+//@   ensures [nothing-missed-exhausted C09 C05] (len(path) == 0 || len(path) == 1) && old(IsBranch(t)) && res0 == nil ==> (forall k string :: old(has(Kids(t), k)) ==> visitedT[old(Kids(t)[k])])
+//@   ensures [nothing-missed-glob C09 C05] len(path) >= 2 && old(IsBranch(t)) && res0 == nil ==> (forall k string :: old(has(Kids(t), k)) ==> visitedT[old(Kids(t)[k])])
+
+//@ func (*Tree).Query
+//@   props C09 C05 C12
+//@   requires t != nil && TreeWf() && f != nil
+//@   modifies ghost visitedT, ghost visits, ghost lastVisited
